@@ -525,6 +525,26 @@ for c in json.load(sys.stdin):
 json.dump(out, sys.stdout)
 '''
 
+def builder_order_probe(res, seed):
+    """C13 through the builder's call order: thresholds set before or after conversion of repetitions is requested
+    must give the same pattern (the configured value is what counts, whenever it was configured)"""
+    cs = []
+    words = [["aaa"], ["aa", "bcbc", "defdefdef"], ["ababab"], ["aaabaaabaaab"], ["xyxyxyz", "xyxy"], ["aabbaabb"]]
+    for ws in words:
+        for mr in (1, 2, 3):
+            for ms in (1, 2, 3):
+                for tf in (False, True):
+                    cs.append({'id': len(cs), 'tcs': [[ord(ch) for ch in w] for w in ws], 'f': 'r', 'mr': mr, 'ms': ms, 'thr_first': tf})
+    impl = runner.run_impl(cs)
+    fails = []
+    for a, b in zip(cs[0::2], cs[1::2]):
+        ra, rb = impl.get(a['id']), impl.get(b['id'])
+        if ra and rb and ra.get('out') != rb.get('out'):
+            fails.append((a, {'kind': 'builder-order', 'detail': 'thresholds (%d,%d) set before with_conversion_of_repetitions() give %r, set after it %r' % (
+                a['mr'], a['ms'], ''.join(map(chr, rb.get('out') or []))[:100], ''.join(map(chr, ra.get('out') or []))[:100])}))
+    res['stats']['builder_order_cases'] = len(cs)
+    return fails
+
 def python_threshold_probe(res, seed):
     """C13 through the Python binding (its threshold setters write the configuration directly)"""
     try:
